@@ -752,7 +752,8 @@ class SymInt:
         if isinstance(o, bool):
             o = int(o)
         if isinstance(o, int) and o >= 0:
-            self._nonneg()
+            # exact for negative x as well: bit i of x (two's complement, as Python ints
+            # behave) is floor(x / 2^i) mod 2, and z3's div/mod floor for positive divisors
             total = None
             for pos, ln in _runs_of_ones(o):
                 term = ((self.z / (1 << pos)) % (1 << ln)) * (1 << pos)
